@@ -2,6 +2,7 @@
 from cfg import Inconclusive, op_place, show, walk
 from common import (atomic_op, calls_to, callee, closure_creations, closure_consumer, field_chain, fn_of,
                     find_fn, get_fn, head_sources, peel, site, guards_of, field_assigns, is_diverging)
+from common import bool_param, is_arg
 from props.c09 import classify
 
 PROP = "C13"
@@ -206,7 +207,7 @@ def rule_disarm_first(ctx):
         t = ti.blocks[gbi]["term"]
         if t["k"] == "switch":
             e = ti.expr_of_operand(t["discr"])
-            if e[0] == "arg" and e[2] == "canceled":
+            if is_arg(e, bool_param(ti)):
                 cedges.append((gbi, t["otherwise"]))
     # the arming decision must be taken after the `running` decision: look only at the region from the spawn guard
     for s in spawns:
